@@ -315,7 +315,7 @@ def run(ctx):
                        "<=, >, >=, hash equality with the compact str, dict/set membership both ways, sorted(), set size. Copies: "
                        "same class, equal, same country_code, same eight components, IBAN.bban a BBAN equal to the original's.")
     ctx.assumptions = ["comparisons with non-strings are outside the statement"]
-    ctx.hyp_explore(strategies(), hyp_body, ctx.pick(3000, 120000), name="C16-hyp")
+    ctx.hyp_parallel(strategies, hyp_body, ctx.pick(8000, 400000), name="C16-hyp")
     ctx.pmap(shard_copies, [(cc, ctx.seed, ctx.tier) for cc in o.countries()])
     bics = sorted({e["bic"] for e in oreg.load_banks() if e.get("bic")})[::ctx.pick(200, 5)]
     for b in bics:
